@@ -24,10 +24,34 @@ static void on_alarm(int sig) {
     _exit(97);
 }
 
+/* names with dots, spaces, non-ASCII bytes, the empty name: ids 19001.. */
+static const char* const special_names[] = {
+    "a.b.c", "ratio.", ".hidden", "stats.v", "v", "hidden", "c", "nosuch.v", "with space", "na\xc3\xafve.\xc3\xa9", "", ".", "..", "b.c", NULL };
+
+static int all_digits(const char* s) { if (!*s) return 0; for (; *s; s++) if (*s < '0' || *s > '9') return 0; return 1; }
+
+/* id -> name:  other "n<id>" ; 19001.. the table ; 20000+k "ghost.n<k>" ; 30000+k "n<k>." ; 40000+k ".n<k>" ; 0 "schema" */
+static void name_of_id(long id, char* out, size_t cap) {
+    if (id == 0) snprintf(out, cap, "schema");
+    else if (id >= 40000) snprintf(out, cap, ".n%ld", id - 40000);
+    else if (id >= 30000) snprintf(out, cap, "n%ld.", id - 30000);
+    else if (id >= 20000) snprintf(out, cap, "ghost.n%ld", id - 20000);
+    else if (id > 19000 && id - 19001 < (long)(sizeof special_names / sizeof special_names[0]) - 1) snprintf(out, cap, "%s", special_names[id - 19001]);
+    else snprintf(out, cap, "n%ld", id);
+}
+
 static void put_name(const char* s) {
     if (!s) { putchar('-'); return; }
     if (!strcmp(s, "schema")) { putchar('0'); return; }
-    if (s[0] == 'n' && s[1]) { fputs(s + 1, stdout); return; }
+    for (int k = 0; special_names[k]; k++) if (!strcmp(s, special_names[k])) { printf("%d", 19001 + k); return; }
+    size_t n = strlen(s);
+    if (s[0] == 'n' && all_digits(s + 1)) { fputs(s + 1, stdout); return; }
+    if (!strncmp(s, "ghost.n", 7) && all_digits(s + 7)) { printf("%ld", 20000 + atol(s + 7)); return; }
+    if (s[0] == '.' && s[1] == 'n' && all_digits(s + 2)) { printf("%ld", 40000 + atol(s + 2)); return; }
+    if (s[0] == 'n' && n > 2 && s[n - 1] == '.') {
+        char tmp[64]; snprintf(tmp, sizeof tmp, "%.*s", (int)(n - 2), s + 1);
+        if (all_digits(tmp)) { printf("%ld", 30000 + atol(tmp)); return; }
+    }
     printf("?%s", s);
 }
 
@@ -83,7 +107,7 @@ static void put_finds(const carquet_schema_t* s, const char* ids) {
     int first = 1;
     for (char* t = strtok(dup, ","); t; t = strtok(NULL, ",")) {
         char nm[64];
-        if (!strcmp(t, "0")) strcpy(nm, "schema"); else snprintf(nm, sizeof nm, "n%s", t);
+        name_of_id(atol(t), nm, sizeof nm);
         /* exact-size heap copy so that an over-read of the name is an ASan report */
         char* h = strdup(nm);
         printf("%s%d", first ? "" : ",", carquet_schema_find_column(s, h));
@@ -148,7 +172,7 @@ static void do_builder(void) {
             /* c:name:type:logical:rep:tlen   |   g:name:rep:parent */
             char* f[8]; int nf = 0; char* sv2 = NULL;
             for (char* x = strtok_r(op, ":", &sv2); x && nf < 8; x = strtok_r(NULL, ":", &sv2)) f[nf++] = x;
-            char nm[64]; snprintf(nm, sizeof nm, "n%s", f[1]);
+            char nm[64]; name_of_id(atol(f[1]), nm, sizeof nm);
             char* hn = strdup(nm);
             int ret;
             if (f[0][0] == 'c' && nf == 6) {
